@@ -35,7 +35,7 @@ from octave_mcp.core.emitter import emit
 from octave_mcp.core.gbnf_compiler import GBNFCompiler
 from octave_mcp.core.hydrator import resolve_hermetic_standard
 from octave_mcp.core.lexer import FENCE_PATTERN, LexerError, tokenize
-from octave_mcp.core.parser import ParserError, parse, parse_with_warnings
+from octave_mcp.core.parser import ParserError, _strip_yaml_frontmatter, parse, parse_with_warnings
 from octave_mcp.core.repair import repair
 from octave_mcp.core.repair_log import LiteralZoneRepairLog
 from octave_mcp.core.schema_extractor import SchemaDefinition
@@ -1356,7 +1356,10 @@ class WriteTool(BaseTool):
             else:
                 # Strict tokenization + strict parse
                 try:
-                    _, tokenize_repairs = tokenize(parse_input)
+                    # YAML frontmatter is not OCTAVE text: tokenise what parse() tokenises
+                    # (the block replaced by blank lines, so line numbers stay the same)
+                    tokenizable, _ = _strip_yaml_frontmatter(parse_input)
+                    _, tokenize_repairs = tokenize(tokenizable)
                 except Exception as e:
                     return self._error_envelope(
                         target_path,
